@@ -82,6 +82,12 @@ def strategy(tier):
         st.tuples(st.integers(1, 3), pi).map(lambda t: [("cache_clear",), ("iter_new", 0), ("iter_next", 11, t[0]),
                                                         ("recycle_yielded", t[1]), ("is_running_yielded",),
                                                         ("iter_finish", 11), ("pass", 0), ("pass", 0), ("pass", 0)]))
+    motifs.append(
+        # a cached process ends, wait() is called on the cached object, the
+        # PID is taken again, is_running() on the old object notices
+        st.tuples(pi, st.booleans()).map(lambda t: [("pass", 0), ("wait_then_recycle", t[0], t[1]),
+                                                    ("is_running_yielded",), ("pass", 0), ("pass", 0)]))
+    ops.append(st.tuples(st.just("wait_then_recycle"), i, st.booleans()))
     one = st.one_of(*ops).map(lambda o: [o])
     piece = st.one_of(one, one, one, one, one, one, one, one, one, st.one_of(*motifs))
     return st.fixed_dictionaries(dict(
@@ -288,6 +294,22 @@ def run_case(case):
                     obj = ys[op[1] % len(ys)]
                     if w.recycle(obj.pid, zombie=False) is not None:
                         labels.add("recycle")
+                        last_recycled[0] = obj
+                continue
+            if kind == "wait_then_recycle":
+                ys = [o for o in keep if o.pid in history.PID_POOL and o.pid in k.procs]
+                if ys:
+                    obj = ys[op[1] % len(ys)]
+                    w.exit(obj.pid)
+                    try:
+                        obj.wait(0)
+                    except psutil.Error:
+                        pass
+                    if op[2]:
+                        w.reap(obj.pid)
+                    if w.recycle(obj.pid, zombie=False) is not None:
+                        labels.add("recycle")
+                        labels.add("wait-on-cached-object-then-recycled")
                         last_recycled[0] = obj
                 continue
             if kind == "is_running_yielded":
